@@ -652,8 +652,16 @@ func run(c *mcx.Ctx) {
 			setup(c, f)
 			for _, o := range opts {
 				if len(o.Exclude) > 0 && hasLink {
-					c.DontCare("exclude-pattern-on-tree-with-symlinks")
-					continue
+					// which path a pattern is held against - the name under which an entry is reached or its real
+					// location - is not fixed by the statement: judged only where both readings give the same result
+					byName, e1 := ref.Walk(base(f), o)
+					o2 := o
+					o2.ExcludeByLocation = true
+					byLoc, e2 := ref.Walk(base(f), o2)
+					if e1 != e2 || fmt.Sprint(byName) != fmt.Sprint(byLoc) {
+						c.DontCare("exclude-pattern-own-path-versus-target-path")
+						continue
+					}
 				}
 				if len(o.Exclude) > 0 && !strings.HasSuffix(o.Exclude[0], "/") && hasDirNamed(f, o.Exclude[0]) {
 					c.DontCare("plain-exclude-pattern-names-a-directory")
@@ -750,7 +758,7 @@ func init() {
 		Rule: "(a) every directory tree with <= 4 (thorough 5) nodes below the recorded root: names {a,b,c}, depth <= 3, regular files with 4 contents (LF, CR/LF/CRLF mix, empty, 256 distinct bytes), directories, symbolic links whose target is every other node, '..', the link itself, a missing name or a file outside the recorded path (file links, directory links, chains, cycles, dangling links arise by construction), each materialised on disk and recorded under {follow directory links} x {normalise line endings}; " +
 			"(a') on all trees <= 3 nodes one deviation at a time of: 5 algorithm lists (two, sha384, none, unknown, three), 2 exclude patterns, 7 strip-prefix lists (incl. a second prefix that matches the remainder) x follow; a 100 KiB CR/LF file under normalise x follow, 4 path lists (two paths, duplicate, missing, reversed); (b) InTotoRun and InTotoRecordStart/Stop (also with the wrong key) x 6 changes between the snapshots (incl. a same-size rewrite that keeps the modification time) x trees <= 2 nodes x wrappers; (c) InTotoMatchProducts for the 81 combinations of two link products and two local files in {absent, 1, 2}. " +
 			"Oracle: ref.Walk on the description (never touches the disk). states = trees, transitions = recordings. non-trivial = non-empty tree.",
-		Assumptions: []string{"exclude patterns on trees containing symbolic links are don't-care (own path versus target path is not fixed by the statement); so is a plain-name pattern that names a directory (whether the directory's contents are recorded)", "error text is not compared, only error versus artifacts"},
+		Assumptions: []string{"an exclude pattern on a tree with symbolic links is judged only where holding it against the name path and against the real location give the same result (which of the two counts is not fixed by the statement); so is a plain-name pattern that names a directory (whether the directory's contents are recorded)", "error text is not compared, only error versus artifacts"},
 		BudgetQuick:  200e9,
 	})
 }
